@@ -50,4 +50,6 @@ def main (args : List String) : IO Unit := do
   report "Run" n (agree Flyt.Generated.IR.Run) (describeLeaf Flyt.Generated.IR.Run)
   report "runExecWithRetries" n (bagree Flyt.Generated.IR.runExecWithRetries) (describeItem Flyt.Generated.IR.runExecWithRetries)
   report "runBatchSequential" n (sagree Flyt.Generated.IR.runBatchSequential) (describeSeq Flyt.Generated.IR.runBatchSequential)
+  report "runBatch" n (batchAgree Flyt.Generated.IR.runBatch) (fun s => let (cfg, scr, ctx) := batchScenario s; s!"cfg={reprStr cfg} ctx={reprStr ctx} prep={reprStr scr.prep.res} MODEL={reprStr (Flyt.runBatch .canceled 3 1 8 cfg scr ctx)} SOURCE={reprStr (runBatchIR 400 Flyt.Generated.IR.runBatch .canceled 3 1 8 cfg scr ctx)}")
+  report "runBatchConcurrent" n (cagree Flyt.Generated.IR.runBatchConcurrent) (fun s => let (cfg, scr, ctx, items) := seqScenario s; let cfg := { cfg with conc := 1 + s % 3 }; s!"cfg={reprStr cfg} ctx={reprStr ctx} items={items.length} MODEL(serial schedule)={reprStr (itemsSerialPool .canceled 3 1 cfg scr items 0 false ctx)} SOURCE={reprStr (itemsConcSerialIR 400 Flyt.Generated.IR.runBatchConcurrent .canceled 3 1 cfg scr idxOfTok items ctx)}")
   report "Flow.Exec" n (fun s => (fagree Flyt.Generated.IR.Flow_Exec s).getD true) (describeFlow Flyt.Generated.IR.Flow_Exec)
